@@ -34,8 +34,11 @@ ASSUMPTIONS = [
 
 PRIMES = [2, 3, 5, 7, 11, 13, 17, 19, 23, 29, 31, 37, 41, 43, 47, 53, 59, 61, 67, 71]
 RATE_PRIME = {"kf": 101, "kb": 103}
-MODES = ("frac", "sym", "frac-rmul", "sym-int")
+# constant / call forms: Fraction primes with n*e, e*n, numpy integers; sympy symbols with int and
+# sympy.Integer multipliers; "mix": odd bases Fraction primes, even bases symbols (products mix both)
+MODES = ("frac", "sym", "frac-rmul", "sym-int", "mix", "frac-np")
 BIG = 10 ** 6
+NREGS_OBS = 4  # registers listed in every observation (= NRegs of EqArithTrace.cfg)
 
 
 # ------------------------------------------------------------------ projection
@@ -112,6 +115,35 @@ def _factor_sympy(x, names):
     return None, None, "constant residue"
 
 
+def _factor(x, names):
+    """constant -> exponent vector over the base constants (primes and/or symbols) + residue"""
+    if isinstance(x, (int, float, Fraction)) and not isinstance(x, bool):
+        return _factor_fraction(x, {n: p for n, p in names.items() if p is not True})
+    import sympy
+    x = sympy.sympify(x)
+    kexp = {}
+    rest = sympy.Integer(1)
+    for b, e in x.as_powers_dict().items():
+        if isinstance(b, sympy.Symbol) and names.get(b.name) is True and e.is_Integer:
+            if int(e):
+                kexp[b.name] = int(e)
+        else:
+            rest *= b ** e
+    if rest.is_Float:
+        f = _encode_float(float(rest))
+        if f is None:
+            return None, None, "unencodable"
+        rest = sympy.Rational(f.numerator, f.denominator)
+    if not (rest.is_Rational and rest > 0):
+        return None, None, "constant residue"
+    k2, rest2, bad = _factor_fraction(Fraction(int(rest.p), int(rest.q)),
+                                      {n: p for n, p in names.items() if p is not True})
+    if bad:
+        return None, None, bad
+    kexp.update(k2)
+    return kexp, rest2, ""
+
+
 def _project_rxn(obj, names, sym, want_cls):
     reac, bad1 = _plain_map(obj.reac)
     prod, bad2 = _plain_map(obj.prod)
@@ -125,7 +157,7 @@ def _project_rxn(obj, names, sym, want_cls):
     if obj.inact_reac or obj.inact_prod:
         o["bad"] = "inactive part"
         return o
-    kexp, rest, bad = (_factor_sympy if sym else _factor_fraction)(obj.param, names)
+    kexp, rest, bad = _factor(obj.param, names)
     if bad:
         o["bad"] = bad
         return o
@@ -152,7 +184,9 @@ class Machine(object):
         self.regs = {}
 
     def const(self, name, prime=None):
-        if self.sym:
+        nbase = len([n for n in self.names if n not in RATE_PRIME])
+        if self.sym or (self.mode == "mix" and name not in self.names and name not in RATE_PRIME and nbase % 2 == 1) \
+                or self.names.get(name) is True:
             import sympy
             self.names[name] = True
             return sympy.Symbol(name, positive=True)
@@ -164,7 +198,24 @@ class Machine(object):
         return self.regs[r].net_stoich([s])[0]
 
     def step(self, h):
-        """Apply one operation; returns the projected observation."""
+        """Apply one operation; the observation also lists every register afterwards."""
+        o = self._step(h)
+        if not o["raised"] and not o["bad"]:
+            allr = []
+            for r in range(1, NREGS_OBS + 1):
+                if r in self.regs:
+                    p = _project_rxn(self.regs[r], self.names, self.sym, "Equilibrium")
+                    p["loaded"] = True
+                else:
+                    p = {"raised": False, "exc": "", "bad": "", "reac": {}, "prod": {}, "kexp": {}, "rest": [1, 1],
+                         "loaded": False}
+                if p["bad"]:
+                    o["bad"] = "register: " + p["bad"] if p["bad"] != "unencodable" else "unencodable"
+                allr.append(p)
+            o["all"] = allr
+        return o
+
+    def _step(self, h):
         op = h["op"]
         try:
             if op == "Load":
@@ -174,15 +225,21 @@ class Machine(object):
                 if self.mode == "sym-int":
                     import sympy
                     n = sympy.Integer(n)
+                elif self.mode == "frac-np":
+                    import numpy
+                    n = numpy.int64(n)
                 e = self.regs[h["r"]] * n if self.mode == "frac-rmul" else n * self.regs[h["r"]]
             elif op == "Neg":
                 e = -self.regs[h["r"]]
+            elif op == "Copy":
+                e = self.regs[h["q"]]  # the same object: aliasing
             elif op == "Add":
                 e = self.regs[h["r"]] + self.regs[h["q"]]
             elif op == "Sub":
                 e = self.regs[h["r"]] - self.regs[h["q"]]
             elif op == "Eliminate":
-                ms = self.Eq.eliminate([self.regs[h["r"]], self.regs[h["q"]]], h["s"])
+                pair = [self.regs[h["r"]], self.regs[h["q"]]]
+                ms = self.Eq.eliminate(tuple(pair) if self.mode in ("sym", "mix") else pair, h["s"])
                 o = {"raised": False, "exc": "", "bad": "", "m": [0, 0]}
                 vals = []
                 for m in ms:
@@ -204,6 +261,12 @@ class Machine(object):
                 return {"raised": False, "exc": "", "bad": "multiplier of type %s" % type(m).__name__, "m": 0}
             elif op == "AsReactions":
                 w = h["which"]
+                if w == "both":
+                    self.regs[h["r"]].as_reactions(kf=self.const("kf", RATE_PRIME["kf"]), kb=self.const("kb", RATE_PRIME["kb"]))
+                    return {"raised": False, "exc": "", "bad": "not refused"}
+                if w == "none":
+                    self.regs[h["r"]].as_reactions()
+                    return {"raised": False, "exc": "", "bad": "not refused"}
                 k = self.const(w, RATE_PRIME[w])
                 fw, bw = self.regs[h["r"]].as_reactions(**{w: k})
                 o = {"raised": False, "exc": "", "bad": "",
@@ -232,7 +295,7 @@ def run_history(arg):
         o = m.step(h)
         obs.append(o)
         if o["raised"] or o["bad"]:
-            break
+            break  # (a refused as_reactions is always the last step of a generated history)
     return obs
 
 
@@ -245,9 +308,20 @@ def _same_rxn(o, x):
             and o["kexp"] == _nm(x["kexp"]) and o["rest"] == [1, 1])
 
 
+def _same_all(o, exp):
+    for p, x in zip(o["all"], exp["all"]):
+        if p["loaded"] != (x["kind"] != "empty") or (p["loaded"] and not _same_rxn(p, x)):
+            return False
+    return True
+
+
 def agrees(o, exp):
     """structural equality of the projected observation with the expectation computed by TLC"""
+    if exp["op"] == "asrx-refused":
+        return o["raised"] and o["exc"] == "ValueError"
     if o["raised"] or o["bad"]:
+        return False
+    if not _same_all(o, exp):
         return False
     if exp["op"] == "reg":
         return _same_rxn(o, exp["val"])
@@ -273,7 +347,7 @@ def _absv(exp):
 
 
 FN = {"Load": "Equilibrium()", "Scale": "Equilibrium.__rmul__", "Neg": "Equilibrium.__neg__",
-      "Add": "Equilibrium.__add__", "Sub": "Equilibrium.__sub__", "Eliminate": "Equilibrium.eliminate",
+      "Copy": "aliasing", "Add": "Equilibrium.__add__", "Sub": "Equilibrium.__sub__", "Eliminate": "Equilibrium.eliminate",
       "Cancel": "Equilibrium.cancel", "AsReactions": "Equilibrium.as_reactions"}
 
 
@@ -385,9 +459,13 @@ def gen_history(arg):
         q = rng.randint(1, nregs)
         x = rng.random()
         if x < 0.25:
-            h = {"op": "Scale", "r": r, "n": rng.choice([-4, -3, -2, -1, 2, 3, 4])}
-        elif x < 0.32:
+            h = {"op": "Scale", "r": r, "n": rng.choice([-4, -3, -2, -1, 1, 2, 3, 4])}
+        elif x < 0.29:
             h = {"op": "Neg", "r": r}
+        elif x < 0.34:
+            if r == q:
+                continue
+            h = {"op": "Copy", "r": r, "q": q}
         elif x < 0.52:
             h = {"op": "Add", "r": r, "q": q}
         elif x < 0.70:
@@ -411,6 +489,9 @@ def gen_history(arg):
             h = {"op": "Cancel", "r": r, "q": q}
         else:
             h = {"op": "AsReactions", "r": r, "which": rng.choice(["kf", "kb"])}
+            if rng.random() < 0.1:
+                do({"op": "AsReactions", "r": r, "which": rng.choice(["both", "none"])})
+                break
         if not do(h):
             break
         if h["op"] in ("Add", "Sub") and obs[-1]["raised"]:
@@ -440,21 +521,21 @@ def _t(ctx, what, t0):
 def run(ctx):
     import time
     t0 = time.time()
-    gen_actions = ["GenLoad", "GenScale", "GenNeg", "GenAdd", "GenSub", "GenEliminate", "GenCancel", "GenAsReactions"]
+    gen_actions = ["GenLoad", "GenScale", "GenNeg", "GenCopy", "GenAdd", "GenSub", "GenEliminate", "GenCancel", "GenAsReactions"]
     # 1. design-level invariants on the machine with the history hidden behind a VIEW
     # (vacuity of the actions is checked on the generation slice, which has the same Next)
     ctx.tlc("EqArith_MC", "EqArith_MC_inv_%s.cfg" % ("q" if ctx.quick else "t"), timeout=1500)
     t0 = _t(ctx, "invariants", t0)
     # 2. all histories of the generation slice, replayed
-    _spec_to_code(ctx, "gen_q" if ctx.quick else "gen_t", 6000 if ctx.quick else None, gen_actions,
-                  MODES if ctx.quick else ("frac", "frac", "frac-rmul", "sym", "frac", "sym-int"))
+    _spec_to_code(ctx, "gen_q" if ctx.quick else "gen_t", 5000 if ctx.quick else 200000, gen_actions,
+                  MODES if ctx.quick else ("frac", "frac-rmul", "sym", "frac", "sym-int", "mix", "frac-np"))
     t0 = _t(ctx, "histories", t0)
     # 3. elimination for every pair of net coefficients in -6..6 \ {0}, species on one or both sides
-    _spec_to_code(ctx, "elim", None, ["GenLoad", "GenEliminate"], ("frac", "sym"))
+    _spec_to_code(ctx, "elim", None, ["GenLoad", "GenEliminate"], ("frac", "sym", "mix"))
     ctx.exhaustive = not ctx.quick
     t0 = _t(ctx, "elimination", t0)
     # 4. seeded longer histories judged by TLC
-    _code_to_spec(ctx, 1000 if ctx.quick else 20000)
+    _code_to_spec(ctx, 800 if ctx.quick else 20000)
     _t(ctx, "seeded", t0)
 
 
